@@ -5,7 +5,9 @@ set -u
 f=/repo/$1; expr=$2; id=$3; only=${4:-}; tier=${5:-quick}
 bak=/tmp/mutate.bak.$$
 cp "$f" $bak
-trap 'cp $bak "$f"; rm -f $bak' EXIT
+ev=/verif/evidence/$id.json
+[ -f $ev ] && cp $ev $bak.ev
+trap 'cp $bak "$f"; rm -f $bak; [ -f $bak.ev ] && mv $bak.ev $ev' EXIT
 perl -0pi -e "$expr" "$f"
 if cmp -s "$f" $bak; then echo "MUTATION DID NOT APPLY"; exit 3; fi
 (cd /repo && git diff --stat -- "$1" | tail -1)
